@@ -77,6 +77,10 @@ CHECKS = {
    text="Reload.tla models writer, file watcher (reads the content a file has when it looks, writes coalesce) and the two managers (OPL: all files re-parsed, all or nothing; legacy: per-file last good); TLC checks over all interleavings that what is served for a file is always one valid version of it written so far, that a file shows nothing only before a valid version was loaded or after the manager was told it is gone, and that once writing stops the last versions are served; with OneShotReader = TRUE it reproduces the recorded defect. Write/remove sequences (valid, syntactically invalid, type-incorrect; OPL single file and directory; legacy JSON/YAML/TOML) are executed with atomic renames against the real fsnotify watchers while a sampler reads Namespaces() every 150 us; the totally ordered log of writes started and observations is validated by TLC against TraceReload.tla.",
    note="Assumes fsnotify reports an atomic rename; final state awaited up to 15 s; two files, up to 8 steps per sequence.",
    technique="TLA+ model checking (TLC) + TLC trace validation of recorded watcher executions", ref="4/C19"),
+ "C14": dict(
+   text="LazyInit.tla models the registry's create-on-first-use getters as access events with happens-before from the mutex only; TLC checks that the synchronised getter is race free and returns one instance to every caller, and that the unsynchronised one is not (a regression test of the model). Request-private state is part of Checkgroup.tla / KetoCheck.tla (one visited set and one result slot per request). On the real code, rounds of requests (check, batch check, expand, list over REST and gRPC) are released by a barrier against a registry that has served nothing yet, in a binary built with -race: every reply must equal the reply of the same request run alone, the multiset of visited sets recorded through hook H1 must equal that of the alone runs, and any race report is a violation.",
+   note="Data-race freedom is observed with Go's race detector on the generated workload; it is not derived from the TLA+ model. 16-48 requests per round.",
+   technique="TLA+ model checking (TLC) of the lazy-initialisation protocol + concurrent-vs-alone replay under the race detector", ref="4/C14"),
 }
 NOT_YET = "check not built yet in this session (work in progress, see DESIGN.md section 12)"
 
